@@ -311,7 +311,11 @@ func TestC02Exhaustive(t *testing.T) {
 			n := f.Count()
 			for _, cls := range model.InjClasses {
 				for line := 0; line < n; line++ {
-					for v := 0; v < 2; v++ {
+					nv := 2
+					if cls == model.InjNoBullet {
+						nv = 4 // x, #, ##, ~ (the random part draws from all marks)
+					}
+					for v := 0; v < nv; v++ {
 						injs = append(injs, &model.Injection{Class: cls, Line: line, Variant: v})
 					}
 					if cls == model.InjBeforeRoot {
@@ -345,7 +349,7 @@ func c02Gen() *rapid.Generator[c02Case] {
 			c.Inj = &model.Injection{
 				Class:   rapid.SampledFrom(model.InjClasses).Draw(t, "class"),
 				Line:    rapid.IntRange(0, f.Count()-1).Draw(t, "line"),
-				Variant: rapid.IntRange(0, 7).Draw(t, "variant"),
+				Variant: rapid.IntRange(0, 21).Draw(t, "variant"),
 			}
 		}
 		return c
